@@ -273,6 +273,22 @@ def _const_truth(test: ast.AST):
         if isinstance(test, ast.UnaryOp) and isinstance(test.op, ast.Not):
             v = _const_truth(test.operand)
             return None if v is None else not v
+        if isinstance(test, ast.BoolOp):
+            vs = [_const_truth(v) for v in test.values]
+            if isinstance(test.op, ast.And):
+                return False if any(v is False for v in vs) else (True if all(v is True for v in vs) else None)
+            return True if any(v is True for v in vs) else (False if all(v is False for v in vs) else None)
+        if isinstance(test, ast.Compare) and len(test.ops) == 1 and isinstance(test.ops[0], (ast.Is, ast.IsNot)) \
+                and isinstance(test.comparators[0], ast.Constant) and test.comparators[0].value is None and not isinstance(test.left, ast.Constant):
+            # `<value> is None` for an expression that certainly is not None: a signed number, a module constant (np.inf, math.pi), a display
+            x = test.left
+            while isinstance(x, ast.UnaryOp) and isinstance(x.op, (ast.USub, ast.UAdd)):
+                x = x.operand
+            notnone = (isinstance(x, ast.Constant) and x.value is not None) or isinstance(x, (ast.List, ast.Tuple, ast.Dict, ast.Set, ast.Lambda, ast.JoinedStr)) \
+                or (isinstance(x, ast.Attribute) and isinstance(x.value, ast.Name) and x.value.id in ("np", "numpy", "math") and x.attr in ("inf", "pi", "e", "nan", "Inf", "PINF", "NINF"))
+            if notnone:
+                return isinstance(test.ops[0], ast.IsNot)
+            return None
         if isinstance(test, ast.Compare) and len(test.ops) == 1 and isinstance(test.left, ast.Constant) and isinstance(test.comparators[0], ast.Constant):
             a, b, op = test.left.value, test.comparators[0].value, test.ops[0]
             if isinstance(op, ast.Eq):
